@@ -492,6 +492,20 @@ pub struct RedCase {
     /// number of rows for inf_norm and the Matrix methods (must divide n; ignored for n = 0)
     pub rows: usize,
     pub salt: u64,
+    /// 0 = no zeros; 1 = every element is a (signed) zero; 2 = about half the elements are zeros
+    #[serde(default)]
+    pub zeros: u8,
+}
+
+/// Overwrite elements with signed zeros according to `mode` (see `RedCase::zeros`).
+fn red_zero(mut d: Vec<f64>, mode: u8, salt: u64, side: u64) -> Vec<f64> {
+    for (i, v) in d.iter_mut().enumerate() {
+        let h = Hx::new().u(salt).u(side).u(i as u64).s("zero").finish();
+        if mode == 1 || (mode == 2 && h & 2 == 0) {
+            *v = if h & 1 == 1 { -0.0 } else { 0.0 };
+        }
+    }
+    d
 }
 
 fn unit(h: u64) -> f64 {
@@ -562,10 +576,10 @@ pub fn check_reduce(ctx: &mut Ctx, c: &RedCase) -> R {
     ctx.sample("reduce", || json!(c));
     let nf = n as f64;
     let salt = c.salt;
-    let x = red_mixed(n, salt, 0, 30);
-    let y = red_mixed(n, salt, 1, 30);
-    let w = red_mixed(n, salt, 2, 200);
-    let p = red_prod(n, salt);
+    let x = red_zero(red_mixed(n, salt, 0, 30), c.zeros, salt, 0);
+    let y = red_zero(red_mixed(n, salt, 1, 30), c.zeros.min(if salt & 4 == 0 { 2 } else { 0 }), salt, 1);
+    let w = red_zero(red_mixed(n, salt, 2, 200), c.zeros, salt, 2);
+    let p = red_zero(red_prod(n, salt), c.zeros, salt, 3);
     let lg = red_log(n, salt);
     let (xv, wv, pv, lv) = (Vector::new(x.clone()), Vector::new(w.clone()), Vector::new(p.clone()), Vector::new(lg.clone()));
 
@@ -661,7 +675,7 @@ pub fn run(ctx: &mut Ctx) {
 Matrix::empty() for length 0), each with several data sets; then random lengths up to 1e4 (thorough 1e5). Data are a pure function of \
 (kind, salt, index): finite values distinct per position, or a mix with ±0, ±inf, subnormals and NaN. A case is non-trivial when the \
 length is >= 1 and at least one element is finite and non-zero; distinct by (container, shape, form / map, data kind, salt). \
-Reductions: one case = (n, rows, salt) checks all reductions on data sets built for them."
+Reductions: one case = (n, rows, salt, zero mode) checks all reductions on data sets built for them; zero mode = none / every element a signed zero / about half the elements signed zeros."
         .into();
     ctx.assumptions = vec![
         "bit-exact comparison; any NaN matches any NaN (sign and payload of a NaN result are not specified by IEEE-754 for commuted operands)".into(),
@@ -738,7 +752,9 @@ Reductions: one case = (n, rows, salt) checks all reductions on data sets built 
         for rows in if n == 0 { vec![1] } else { divisors(n) } {
             for j in 0..rsalts {
                 let salt = mix_seed(ctx.seed, "c04/red", (n as u64) * 1000 + j);
-                ctx.check_one("reduce", &RedCase { n, rows, salt }, check_reduce);
+                for zeros in 0..3u8 {
+                    ctx.check_one("reduce", &RedCase { n, rows, salt, zeros }, check_reduce);
+                }
             }
         }
     }
@@ -786,9 +802,9 @@ Reductions: one case = (n, rows, salt) checks all reductions on data sets built 
         ctx.scale(4_000, 20_000),
         8,
         || {
-            (1usize..=maxlen, any::<u16>(), any::<u64>()).prop_map(|(n, dsel, salt)| {
+            (1usize..=maxlen, any::<u16>(), any::<u64>(), 0u8..8).prop_map(|(n, dsel, salt, z)| {
                 let d = divisors(n);
-                RedCase { n, rows: d[dsel as usize % d.len()], salt }
+                RedCase { n, rows: d[dsel as usize % d.len()], salt, zeros: if z >= 6 { z - 5 } else { 0 } }
             })
         },
         check_reduce,
